@@ -98,7 +98,11 @@ fn pick_col<'a>(rng: &mut Rng, s: &'a Src, kinds: &str) -> Option<&'a (String, &
 fn gen_scalar(rng: &mut Rng, s: &Src, depth: u32) -> String {
     let num = pick_col(rng, s, "if").map(|c| c.0.clone()).unwrap_or("1".into());
     if depth == 0 { return num; }
-    match rng.below(9) {
+    match rng.below(12) {
+        // several WHEN branches with overlapping conditions: the first match wins
+        9 => { let (x, y) = (rng.range(0, 4), rng.range(3, 9)); format!("CASE WHEN {num} < {x} THEN 1 WHEN {num} < {y} THEN 2 WHEN {num} < {} THEN 3 ELSE 4 END", y + 2) }
+        10 => pick_col(rng, s, "t").map(|c| format!("CASE WHEN {num} > 5 THEN 'hi' WHEN {num} > 1 THEN {} ELSE 'lo' END", c.0)).unwrap_or(num),
+        11 => format!("least({num}, {}) - {}", rng.range(0, 6), rng.range(0, 3)),
         0 => format!("{num} + {}", rng.range(-3, 3)),
         1 => format!("{num} * 2"),
         2 => format!("abs({num})"),
@@ -269,7 +273,11 @@ pub fn eval(case: &J) -> Outcome {
             let ok = match &row[ci] { Cell::Null => matches!(f.data_type(), DataType::Optional(_) | DataType::Unit(_) | DataType::Any), _ => mem(&f.data_type(), &v) };
             // an ungrouped aggregate over an empty input returns one row of NULLs (count: 0)
             let empty_agg = row[ci] == Cell::Null && !sql.contains("GROUP BY") && rendered.1.len() == 1 && (sql.contains("sum(") || sql.contains("avg(") || sql.contains("min(") || sql.contains("max("));
-            let cls = if empty_agg { "null-aggregate-over-empty-input".to_string() } else if row[ci] == Cell::Null { format!("null/{cls}") } else if sql.contains("FULL JOIN") || sql.contains("LEFT JOIN") || sql.contains("RIGHT JOIN") { "value/outer-join".to_string() } else { format!("value/{cls}") };
+            // PostgreSQL's LEAST / GREATEST ignore NULL arguments (the shim follows it); the library types them as NULL-propagating
+            let extremum_of_nullable = ["least(e,", "greatest(e,", "least(t1.e,", "greatest(t1.e,"].iter().any(|p| sql.contains(p)) && row[ci] != Cell::Null;
+            // a CASE whose condition is NULL takes the ELSE branch in SQL; the library types the CASE as NULL in that case
+            let case_on_nullable = ["CASE WHEN e ", "CASE WHEN t1.e ", " WHEN e ", " WHEN t1.e "].iter().any(|p| sql.contains(p)) && row[ci] != Cell::Null;
+            let cls = if empty_agg { "null-aggregate-over-empty-input".to_string() } else if extremum_of_nullable { "value/least-greatest-of-nullable".to_string() } else if case_on_nullable { "value/case-condition-on-nullable".to_string() } else if row[ci] == Cell::Null { format!("null/{cls}") } else if sql.contains("FULL JOIN") || sql.contains("LEFT JOIN") || sql.contains("RIGHT JOIN") { "value/outer-join".to_string() } else { format!("value/{cls}") };
             if !ok { out.fail(&format!("C07/sqlx/cell-outside-type/{cls}"), format!("{sql}: column `{}` is declared {} but execution produced {} (row {:?})", f.name(), f.data_type(), row[ci], row)); break; }
         }
         if !out.oracle.is_empty() { break; }
